@@ -53,17 +53,13 @@ pub(crate) fn repair_index<S: Open>(
     let mut checker = PackChecker::new(repo)?;
 
     let p = repo.progress_counter("reading index...");
+    let mut changed_indexes = Vec::new();
     for index in be.stream_all::<IndexFile>(&p)? {
         let (index_id, index) = index?;
         let (new_index, changed) = checker.check_pack(index, opts.read_all);
         match (changed, dry_run) {
             (true, true) => info!("would have modified index file {index_id}"),
-            (true, false) => {
-                if !new_index.packs.is_empty() || !new_index.packs_to_delete.is_empty() {
-                    _ = be.save_file(&new_index)?;
-                }
-                be.remove(FileType::Index, &index_id, true)?;
-            }
+            (true, false) => changed_indexes.push((index_id, new_index)),
             (false, _) => {} // nothing to do
         }
     }
@@ -108,6 +104,15 @@ pub(crate) fn repair_index<S: Open>(
     }
     indexer.write().unwrap().finalize()?;
     p.finish();
+
+    // Replace the changed index files only now: the packs they no longer list have been indexed
+    // again above, so an interruption never leaves needed packs unindexed.
+    for (index_id, new_index) in changed_indexes {
+        if !new_index.packs.is_empty() || !new_index.packs_to_delete.is_empty() {
+            _ = be.save_file(&new_index)?;
+        }
+        be.remove(FileType::Index, &index_id, true)?;
+    }
 
     Ok(())
 }
